@@ -155,6 +155,9 @@ func c13GoLabel(name string, kinds int) (any, specLabel) {
 	if kinds == 5 { // reduced set: int64, int, uint8, string, not-a-label
 		k = []int{0, 1, 6, 10, 11}[k]
 	}
+	if kinds == 6 { // int64, int, uint8, uint64, string, not-a-label
+		k = []int{0, 1, 6, 9, 10, 11}[k]
+	}
 	if kinds == 3 { // int64, int, uint8
 		k = []int{0, 1, 6}[k]
 	}
